@@ -386,7 +386,7 @@ def value(rng, n, env, small=False, params=frozenset()):
         L = _ev(n["len"], env, 1)
         if not isinstance(L, int) or L < 0 or L > 64: L = 1
         if rng.random() < 0.05: L += rng.choice([-1, 1])
-        if rng.random() < 0.05 and L >= 1:
+        if rng.random() < 0.15 and L >= 1:          # Bytes builds from an integer too
             return rng.randrange(0, 256 ** min(L, 3))
         return rbytes(rng, max(L, 0))
     if k == "GreedyBytes":
@@ -426,7 +426,7 @@ def value(rng, n, env, small=False, params=frozenset()):
                 continue
             val = value(rng, inner, e2, small=(nm in params), params=params)
             out[nm] = val
-            e2.vars[nm] = val
+            e2.vars[nm] = _ctx_value(inner, val, e2)
         return out
     if k == "Sequence":
         e2 = VEnv(env)
@@ -537,6 +537,16 @@ def buildnone(n):
     if k in ("FocusedSeq", "Union"): return False
     if "sub" in n: return buildnone(n["sub"])
     return False
+
+def _ctx_value(inner, val, env):
+    "what the member leaves in the context: Bytes converts an integer to bytes before writing"
+    if inner["k"] == "Bytes" and isinstance(val, int) and not isinstance(val, bool):
+        L = _ev(inner["len"], env, 1)
+        try:
+            return val.to_bytes(L, "big")
+        except Exception:
+            return val
+    return val
 
 def build_value(rng, prog, kw=None):
     env = VEnv(kw=kw or {})
